@@ -902,6 +902,50 @@ func checkEngineSend(c *Ctx) {
 								}
 							}
 						}
+					case *ssa.Select:
+						// select { case <-timer.C: ...; case <-ctx.Done(): return }: the branch taken when a timer armed with the
+						// SendDelay fired is paced; the other branches must leave the loop (they are not cut below)
+						if !x.Blocking {
+							continue
+						}
+						for k, st := range x.States {
+							isDelay := false
+							switch ch := c.P.Def(st.Chan).(type) {
+							case *ssa.UnOp:
+								if fa, ok := ch.X.(*ssa.FieldAddr); ok && core.FieldName(fa) == "C" {
+									if cl, ok := c.P.Def(fa.X).(*ssa.Call); ok && cl.Common().StaticCallee() != nil && cl.Common().StaticCallee().String() == "time.NewTimer" && isSendDelayField(argString(c, g, cl, 0)) {
+										isDelay = true
+									}
+								}
+							case *ssa.Call:
+								if cal := ch.Common().StaticCallee(); cal != nil && cal.String() == "time.After" && isSendDelayField(argString(c, g, ch, 0)) {
+									isDelay = true
+								}
+							}
+							if !isDelay {
+								continue
+							}
+							for _, r := range *x.Referrers() {
+								ex, ok := r.(*ssa.Extract)
+								if !ok || ex.Index != 0 {
+									continue
+								}
+								for _, r2 := range *ex.Referrers() {
+									bo, ok := r2.(*ssa.BinOp)
+									if !ok || bo.Op.String() != "==" {
+										continue
+									}
+									if cst, ok := bo.Y.(*ssa.Const); !ok || cst.Value == nil || cst.Int64() != int64(k) {
+										continue
+									}
+									for _, r3 := range *bo.Referrers() {
+										if iff, ok := r3.(*ssa.If); ok {
+											pace[iff.Block().Succs[0]] = true
+										}
+									}
+								}
+							}
+						}
 					}
 				}
 			}
